@@ -91,8 +91,13 @@ func subnetIDs(slot, node int) []int {
 }
 
 func runScen(s Scen) (res result) {
-	if s.Attack == "hit-and-run" {
+	switch s.Attack {
+	case "hit-and-run":
 		return runHitAndRun(s)
+	case "preseed-instant":
+		return runPreseed(s)
+	case "two-mismatch-then-honest":
+		return runTwoMismatch(s)
 	}
 	res.obs = map[string]any{}
 	t := s.tree()
